@@ -58,7 +58,12 @@ def build_model(isa, with_mult):
          "port_pressure": [[1, ["C"]], [1, ["D"]]]},
     ]
     extra = {}
-    if with_mult:
+    if with_mult == "load-only":
+        # only one of the two tables: the other kind of access is not scaled at all
+        extra["load_throughput_multiplier"] = {g: 1.5, v: 2.0, y: 2.5}
+    elif with_mult == "store-only":
+        extra["store_throughput_multiplier"] = {g: 3.0, v: 1.5, y: 2.0}
+    elif with_mult:
         # pairwise different, none equal to 1 where loads and stores of one type meet (a
         # read-modify-write scales its load part with the load and its store part with the store
         # multiplier of the register type)
@@ -69,6 +74,7 @@ def build_model(isa, with_mult):
         load_throughput=lt, load_throughput_default=[[1, ["C", "D"]]],
         store_throughput=st, store_throughput_default=[[1, ["C"]]], **extra)
     if isa == "aarch64":
+        model["isa"] = "AArch64"   # spelled as in the shipped model files
         for row in lt + st:
             row["pre_indexed"] = False
             row["post_indexed"] = False
@@ -144,9 +150,9 @@ def instructions(isa):
 def _setup(ctx):
     d = ctx.sub("c08")
     for isa in ("x86", "aarch64"):
-        for mult in (False, True):
+        for mult in (False, True, "load-only", "store-only"):
             model, regforms, isa_forms = build_model(isa, mult)
-            tag = "%s_%s" % (isa, "mult" if mult else "plain")
+            tag = "%s_%s" % (isa, {False: "plain", True: "mult"}.get(mult, mult))
             path = synth.write(os.path.join(d, "mm_%s.yml" % tag), model)
             isap = synth.write(os.path.join(d, "isa_%s.yml" % tag), synth.isa_db(isa, isa_forms))
             mm = drive.MachineModel(path_to_yaml=path)
